@@ -58,6 +58,60 @@ pub fn s3(idx: u64, flags: u64, at: u64, prio: u8, observer: bool) -> Result<(u6
     Ok((steps, taken))
 }
 
+/// S4 (scale): a loop body of `n` pairwise distinct ALU instructions executed three times (more distinct instruction words than any small
+/// program has), in lock-step; `churn` idle devices were attached and removed beforehand.
+pub fn s4(n: u64, flags: u64, churn: u32) -> Result<u64, (String, String)> {
+    let (mut m, _) = program_machine(0, 0, flags);
+    m.device_churn = churn;
+    let mut words: Vec<u16> = vec![0x5DA0, 0x1DA3, 0xEE00]; // AND R6,R6,#0 ; ADD R6,R6,#3 ; LEA R7,#0 (= address of the loop body)
+    for k in 0..n { let (d, s, imm) = (k % 6, (k / 6) % 6, (k / 36) % 32); words.push(if k % 2 == 0 { 0x1020 } else { 0x5020 } | (d as u16) << 9 | (s as u16) << 6 | imm as u16); }
+    words.extend([0x1DBF, 0x0C01, 0xC1C0, 0xF025]); // ADD R6,R6,#-1 ; BRnz +1 ; JMP R7 ; HALT
+    for (k, w) in words.iter().enumerate() { m.pokes.push((0x3000 + k as u16, *w)); }
+    let mut p = build(&m);
+    let mut steps = 0u64;
+    for _ in 0..(3 * n + 40) {
+        let info = step_compare(&mut p, false).map_err(|(s, d)| (s, format!("loop body of {n} distinct instructions, flags {flags}, {churn} devices attached and removed before: step {steps}: {d}")))?;
+        steps += 1;
+        if matches!(info.outcome, Outcome::Halt | Outcome::Err(_)) { break; }
+    }
+    if let Some(e) = compare_memory(&p) { return Err(e); }
+    Ok(steps)
+}
+/// S2 programs on a simulator whose device ids were pushed up by `churn` attach/remove rounds
+pub fn s2_churn(len: usize, idx: u64, flags: u64, churn: u32) -> Result<u64, (String, String)> {
+    let (mut m, mut w) = program_machine(len, idx, flags);
+    m.device_churn = churn;
+    // the alphabet word is preceded by a load from and a store to the custom device's registers (xFE10, xFE12; R2 = xFE00): LDR R0,R2,#16 ; STR R1,R2,#18
+    let tail: Vec<(u16, u16)> = m.pokes.iter().filter(|(a, _)| (0x3000..0x300A).contains(a)).map(|(a, v)| (a + 2, *v)).collect();
+    m.pokes.retain(|(a, _)| !(0x3000..0x300A).contains(a));
+    m.pokes.extend([(0x3000, 0x6090), (0x3001, 0x7292)]); m.pokes.extend(tail);
+    w.splice(0..0, [0x6090, 0x7292]);
+    let mut p = build(&m);
+    let mut steps = 0u64;
+    for _ in 0..HORIZON {
+        let info = step_compare(&mut p, false).map_err(|(s, d)| (s, format!("program {w:x?} flags {flags} after {churn} device attach/remove rounds: {d}")))?;
+        steps += 1;
+        if matches!(info.outcome, Outcome::Halt | Outcome::Err(_)) || p.rf.saw_user_rti { break; }
+    }
+    Ok(steps)
+}
+pub const S4_SIZES: [u64; 9] = [100, 127, 128, 129, 150, 255, 256, 257, 600];
+pub const CHURNS: [u32; 8] = [252, 253, 254, 255, 300, 509, 510, 600];
+pub fn scale_sweeps(ctx: &Ctx, rep: &mut Report) {
+    let r = sweep(ctx, S4_SIZES.len() as u64 * 4, 1, |k, acc| {
+        let (n, flags) = (S4_SIZES[(k / 4) as usize], k % 4);
+        acc.evals += 1; acc.count("s4_long_programs", 1);
+        match s4(n, flags, 0) { Ok(steps) => { acc.transitions += steps; acc.traces += 1; acc.nontrivial += 1; } Err((sig, d)) => acc.violation(sig, format!("s4:{n}:{flags}:0"), d) }
+    });
+    rep.absorb(r);
+    let r = sweep(ctx, CHURNS.len() as u64 * 40 * 2, 8, |k, acc| {
+        let (churn, idx, flags) = (CHURNS[(k / 80) as usize], k / 2 % 40, (k % 2) * 2);
+        acc.evals += 1; acc.count("s2_device_churn", 1);
+        match s2_churn(1, idx, flags, churn) { Ok(steps) => { acc.transitions += steps; acc.traces += 1; acc.nontrivial += 1; } Err((sig, d)) => acc.violation(sig, format!("s2c:{idx}:{flags}:{churn}"), d) }
+    });
+    rep.absorb(r);
+}
+
 pub fn run(ctx: &Ctx) -> Report {
     let mut rep = Report::new("S1: every 16-bit word placed at the PC of each machine context (quick 12, thorough 172 contexts: PC in user/supervisor/boundary/I-O pages x 4 register sets aimed at user memory, x2FFF/x3000, xFDFF/xFE00, KBSR/KBDR/DSR/DDR, a recording device, PSR, MCR, saved-SP port x privilege/priority/CC x real/virtual traps x privilege checks on/off; pointer cells of every address class around the PC; keyboard 'ab', display and recording device attached), one step plus the following fetch, compared with RefLC3 on registers, PC, PSR, saved SP, touched memory, device buffers, error kind and faulting address, instruction count; S2: every program of 1-2 (thorough 3) instructions over a 40-word alphabet x 4 flag sets run <=300 steps in lock-step with a final 64K comparison; S3: every 2-instruction program x interrupt at each of the first 8 polls x priority {1,4}. non-trivial = S1 steps whose opcode touches memory, control flow or traps; states = distinct (context, word) / programs");
     let nctx = context_count(ctx.thorough());
@@ -95,6 +149,7 @@ pub fn run(ctx: &Ctx) -> Report {
         }
     });
     rep.absorb(r);
+    scale_sweeps(ctx, &mut rep);
     rep.bound("contexts", Json::i(nctx)); rep.bound("program_length", Json::i(maxlen as u64)); rep.bound("horizon", Json::i(HORIZON as u64));
     rep.require(rep.acc.get("s3_interrupts_taken") > 1000, "interrupts were taken in S3");
     rep.require(rep.acc.get("s2_halted") > 100, "programs reached HALT in S2");
@@ -111,6 +166,8 @@ pub fn replay(case: &str) -> Option<String> {
         "s1" => s1(n(1)?, n(2)? as u16, false).map(|_| ()),
         "s2" => s2(n(1)? as usize, n(2)?, n(3)?, false).map(|_| ()),
         "s3" => s3(n(1)?, n(2)?, n(3)?, n(4)? as u8, false).map(|_| ()),
+        "s4" => s4(n(1)?, n(2)?, n(3)? as u32).map(|_| ()),
+        "s2c" => s2_churn(1, n(1)?, n(2)?, n(3)? as u32).map(|_| ()),
         _ => return None,
     };
     r.err().map(|(s, d)| format!("[{s}] {d}"))
